@@ -17,7 +17,9 @@
 From Coq Require Import NArith ZArith List Bool.
 From Clemens Require Import Base.Res Base.Word Pos.Types Pos.Position Pos.Inv Eval.Eval Search.TT Search.Ordering
   Search.Negamax Search.SearchLines Search.SearchIter Search.GoInst.
-From Clemens.C13Mate Require Import MateDefs MateRoot MateMain MateExamples MateRuns.
+From Clemens.C13Mate Require Import MateDefs MateRange MateRoot MateMain MateExamples MateRuns.
+From Clemens.C15Bound Require Import Material.
+From Clemens.C13Bridge Require Import Bridge Seq Few.
 Import ListNotations.
 Open Scope Z_scope.
 
@@ -118,3 +120,60 @@ Example C13_state_hypotheses_needed :
   junk_cache_answer fen2 1661 1 (-32766) = Some (ROk 1661%N).
 Proof. exact (conj table_hypothesis_needed cache_hypothesis_needed). Qed.
 Print Assumptions C13_state_hypotheses_needed.
+
+(* ================= the hypotheses discharged as far as they can be (C13Bridge) ================= *)
+(* [legal_pos p] = the C10 invariant and the material accounting of legal chess (both executable, both invariants of
+   play: C10, C15). [visited K root] = the least set containing root and closed under the moves the search makes.
+   [no_collision root]: no position of [visited root] with a legal move shares its 64-bit Zobrist hash with a checkmated
+   successor of the root - the one hypothesis no proof can remove; it is the WEAKEST form any universe's clause implies. *)
+Theorem C13_universe_from_legal_pos : forall root,
+  legal_pos root -> no_collision root -> C13_universe go_keys go_econsts root (visited go_keys root).
+Proof. exact universe_visited. Qed.
+Print Assumptions C13_universe_from_legal_pos.
+
+Theorem C13_no_collision_weakest : forall root (U : position -> Prop),
+  C13_universe go_keys go_econsts root U -> no_collision root.
+Proof. exact no_collision_weakest. Qed.
+Print Assumptions C13_no_collision_weakest.
+
+(* stated over ALL legal positions instead of the visited ones the clause would be refutable (the invariant does not read
+   the hash field), i.e. the theorem would be vacuous - which is why it is stated over [visited] *)
+Theorem C13_no_collision_over_all_positions_refuted : forall root,
+  (exists m0, mating go_keys root m0) -> ~ no_collision_all root.
+Proof. exact no_collision_all_refuted. Qed.
+Print Assumptions C13_no_collision_over_all_positions_refuted.
+
+Theorem C13_mate_in_one_legal : forall root iters fuel rep s req answer s',
+  legal_pos root -> few_gen root ->
+  (forall m q, gen_of root m -> make_move go_keys root m = Ok q -> few_gen q) ->
+  (exists m0, mating go_keys root m0) -> no_collision root ->
+  C13_state go_keys go_econsts root s -> (fuel <= 255)%nat -> (req <= 254)%N ->
+  go_search iters fuel rep s root req = (ROk answer, s') ->
+  mating go_keys root answer.
+Proof. exact Bridge.C13_mate_in_one_legal. Qed.
+Print Assumptions C13_mate_in_one_legal.
+
+(* "whatever earlier searches left in the shared tables": [session roots s] = s is the state of an engine that started with
+   empty tables and has run any number of searches (any depth, any cancellation, any result) from the legal positions
+   [roots], the caller changing anything but the two tables in between *)
+Theorem C13_mate_in_one_session : forall root roots iters fuel rep s req answer s',
+  session roots s -> s_pv s = [] ->
+  legal_pos root -> few_gen root ->
+  (forall m q, gen_of root m -> make_move go_keys root m = Ok q -> few_gen q) ->
+  (exists m0, mating go_keys root m0) ->
+  no_collision root -> (forall root1, In root1 roots -> no_collision_from root1 root) ->
+  (fuel <= 255)%nat -> (req <= 254)%N ->
+  go_search iters fuel rep s root req = (ROk answer, s') ->
+  mating go_keys root answer.
+Proof. exact Seq.C13_mate_in_one_session. Qed.
+Print Assumptions C13_mate_in_one_session.
+
+(* the uint8 move counter: [few_gen] is not implied by the invariant alone (271 generated moves with illegal material);
+   the two known 218-move record positions satisfy it *)
+Example C13_few_gen_facts :
+  (Inv (root_of fen271) /\ material_ok (root_of fen271) = false /\
+   gen_count (root_of fen271) = Some 271%nat /\ legal_count (root_of fen271) = Some 271%nat /\ ~ few_gen (root_of fen271)) /\
+  (legal_pos (root_of fen218a) /\ gen_count (root_of fen218a) = Some 218%nat /\
+   legal_count (root_of fen218a) = Some 218%nat /\ few_gen (root_of fen218a)).
+Proof. exact (conj inv_alone_not_few max218_a). Qed.
+Print Assumptions C13_few_gen_facts.
